@@ -1,4 +1,5 @@
 import PPLV.Solver.MIPProofs
+import Mathlib.Data.Rat.Floor
 
 /-!
 # C06 — the statement of the property, at the level of sets, and the bridge to the model
@@ -176,6 +177,69 @@ theorem den_one_iff (q : Rat) : (q.den == 1) = true ↔ ∃ z : Int, q = (z : Ra
 theorem checkFeasible_iff (P : Problem) (x : Pt) : checkFeasible P x = true ↔ Feasible P x.val := by
   unfold checkFeasible Feasible Sat
   simp only [Bool.and_eq_true, List.all_eq_true, conHolds_iff, den_one_iff]
+
+/-! ### a feasible point and an improving recession direction: the MIP is unbounded -/
+
+/-- finitely many rationals have a common positive multiplier making them integers -/
+theorem common_multiplier (is : List Nat) (d : Val) :
+    ∃ q : Nat, 0 < q ∧ ∀ i ∈ is, ∃ z : Int, (q : Rat) * d i = (z : Rat) := by
+  induction is with
+  | nil => exact ⟨1, Nat.one_pos, fun i hi => by cases hi⟩
+  | cons j js ih =>
+    obtain ⟨q, hq, hz⟩ := ih
+    refine ⟨(d j).den * q, Nat.mul_pos (d j).den_pos hq, ?_⟩
+    intro i hi
+    rcases List.mem_cons.mp hi with rfl | hi
+    · refine ⟨(d i).num * q, ?_⟩
+      have h := Rat.den_mul_eq_num (d i)
+      push_cast
+      calc ((d i).den : Rat) * (q : Rat) * d i = (q : Rat) * (((d i).den : Rat) * d i) := by ring
+        _ = (q : Rat) * ((d i).num : Rat) := by rw [h]
+        _ = ((d i).num : Rat) * (q : Rat) := by ring
+    · obtain ⟨z, hzz⟩ := hz i hi
+      refine ⟨(d j).den * z, ?_⟩
+      push_cast
+      calc ((d j).den : Rat) * (q : Rat) * d i = ((d j).den : Rat) * ((q : Rat) * d i) := by ring
+        _ = ((d j).den : Rat) * (z : Rat) := by rw [hzz]
+
+theorem unbounded_max_of_point_and_ray (e : List Int) (k : Int) (is : List Nat) (cs : List Con) (x d : Val)
+    (hx : x ∈ mipSet is cs) (hd : Sat (rayRows e cs) d) : IsUnboundedS (mipSet is cs) (linObj e k) := by
+  obtain ⟨q, hq, hz⟩ := common_multiplier is d
+  have hed : 1 ≤ dot e d := by
+    have := hd (geRow e (-1)) (by simp [rayRows])
+    simp only [Con.sat, geRow, Con.eval, Bool.false_eq_true, if_false] at this
+    push_cast at this; linarith
+  have hrow : ∀ c ∈ cs, 0 ≤ dot c.coeffs d := by
+    intro c hc
+    have := hd ⟨c.coeffs, 0, false⟩ (by
+      simp only [rayRows, List.mem_cons, List.mem_map]
+      exact Or.inr ⟨c, hc, rfl⟩)
+    simpa [Con.sat, Con.eval] using this
+  have hmove : ∀ t : Nat, (fun i => x i + ((t : Rat) * (q : Rat)) * d i) ∈ mipSet is cs := by
+    intro t
+    have ht : (0 : Rat) ≤ (t : Rat) * (q : Rat) := by positivity
+    refine ⟨fun c hc => ?_, fun i hi => ?_⟩
+    · have h1 := hx.1 c hc
+      have h2 := mul_nonneg ht (hrow c hc)
+      unfold Con.sat Con.eval at *
+      rw [dot_axpy]
+      split at h1 <;> simp only [*, if_true, Bool.false_eq_true, if_false] <;> linarith
+    · obtain ⟨z0, hz0⟩ := hx.2 i hi
+      obtain ⟨z, hzz⟩ := hz i hi
+      refine ⟨z0 + t * z, ?_⟩
+      push_cast
+      rw [hz0, mul_assoc, hzz]
+  refine ⟨⟨x, hx⟩, fun M => ?_⟩
+  let t : Nat := Nat.ceil (max 0 (M - linObj e k x + 1))
+  refine ⟨_, hmove t, ?_⟩
+  have h1 : max 0 (M - linObj e k x + 1) ≤ (t : Rat) := Nat.le_ceil _
+  have h2 : M - linObj e k x + 1 ≤ (t : Rat) := le_trans (le_max_right _ _) h1
+  have hq1 : (1 : Rat) ≤ (q : Rat) := by exact_mod_cast hq
+  have ht0 : (0 : Rat) ≤ (t : Rat) := by positivity
+  have h3 : (t : Rat) ≤ (t : Rat) * (q : Rat) * dot e d := by nlinarith [mul_nonneg ht0 (sub_nonneg.mpr hq1), mul_nonneg (mul_nonneg ht0 (le_trans zero_le_one hq1)) (sub_nonneg.mpr hed)]
+  unfold linObj at *
+  rw [dot_axpy]
+  linarith
 
 /-! ### the window restriction -/
 
